@@ -370,6 +370,8 @@ def run(ctx):
     check_vex_listing_assembles(db, rep, "D17-VEX-LISTING-ASSEMBLES", ctx.scratch)
     from x86enc import check_labels_distinct
     check_labels_distinct(db, rep, "D18-LABELS-DISTINCT")
+    from x86enc import check_listing_writer_reentrant
+    check_listing_writer_reentrant(db, rep, "D19-LISTING-WRITER-REENTRANT")
     from vexroles import check_vex_rxb_roles
     nvr = check_vex_rxb_roles(db, rep, "D12-VEX-RXB-ROLES")
     if nvr < 5:
